@@ -360,6 +360,123 @@ def auto_discharge(mir, site_fn, b, bb, t):
     return None
 
 
+def _mutated_between(b, vec, frm, to):
+    """is the vector `vec` (an origin, references stripped) handed by `&mut` to a call in a block on a path from block frm (exclusive)
+    to block to (exclusive)?"""
+    from mirq import strip_refs
+    fwd = set()
+    for sx in b.succs()[frm]:
+        fwd |= b.reach(sx, avoid_blocks=(to,))
+    fwd |= {to}
+    for x in sorted(fwd):
+        if x in (frm, to) or to not in b.reach(x):
+            continue
+        t = b.blocks[x]["term"]
+        if t and t["k"] == "call":
+            for a, aty in zip(t["args"], t.get("argtys", [])):
+                if str(aty).startswith("&mut") and strip_refs(b.origin(a)) == vec:
+                    return True
+    return False
+
+
+def discharge_assert_relational(mir, b, bb):
+    """overflow asserts of `a - v.len()` that hold by a relation between a and the length, visible in the code shape:
+    (T) v.truncate(a) dominates the length read and v is not handed out mutably in between: len <= a;
+    (R) a = (v.len() + m) & !m  or  v.len().next_multiple_of(c), with v unchanged in between: a >= len."""
+    from mirq import strip_refs
+    t = b.blocks[bb]["term"]
+    if not t or t["k"] != "assert" or "overflow" not in str(t.get("msg", "")).lower():
+        return None
+    o = b.origin(t["cond"])
+    if not (o[0] == "field" and o[2] == 1 and o[1][0] == "bin" and o[1][1] == "SubWithOverflow"):
+        return None
+    A, B = o[1][2], o[1][3]
+
+    def f0(x):
+        return x[1] if x[0] == "field" and x[2] == 0 and x[1][0] == "bin" else x
+
+    def len_of(x):
+        if x[0] == "call" and re.search(r"Vec::<T(, A)?>::len$|BytesMut::len$", x[1] or "") and x[3]:
+            return strip_refs(x[3][0]), x[4]
+        return None
+    lb = len_of(B)
+    if lb is None:
+        return None
+    vec, bbL = lb
+    # (T)
+    for bbT, tt in b.calls_to(r"Vec::<T(, A)?>::truncate$|BytesMut::truncate$"):
+        if strip_refs(b.origin(tt["args"][0])) == vec and b.origin(tt["args"][1]) == A and b.dominates(bbT, bbL) and not _mutated_between(b, vec, bbT, bbL):
+            return "`a - v.len()` after `v.truncate(a)` with v untouched in between: len <= a"
+    # (R)
+    a = f0(A)
+    if a[0] == "bin" and a[1] == "BitAnd":
+        x, m = f0(a[2]), a[3]
+        if x[0] == "bin" and x[1] in ("AddWithOverflow", "Add") and m[0] == "un" and m[1] == "Not":
+            la = len_of(x[2])
+            if la is not None and la[0] == vec and f0(x[3]) == f0(m[2]) and b.dominates(la[1], bbL) and not _mutated_between(b, vec, la[1], bbL):
+                return "`((len + m) & !m) - len`: rounding up never goes below len"
+    if a[0] == "call" and re.search(r"<impl usize>::next_multiple_of$", a[1] or "") and a[3]:
+        la = len_of(a[3][0])
+        if la is not None and la[0] == vec and b.dominates(la[1], bbL) and not _mutated_between(b, vec, la[1], bbL):
+            return "`len.next_multiple_of(c) - len`: rounding up never goes below len"
+    return None
+
+
+def discharge_assert_in_caller(mir, s, param_ranges=None):
+    """a private helper with a single caller is part of that caller: its assert is decided on the caller's body with the helper
+    (and the caller's other single-caller helpers) inlined - where the values of non-integer parameters (enum payloads, struct
+    fields) are visible - by the interval analysis and the relational shapes above."""
+    from mirq import inline_calls
+    f = s["fn"]
+    chain = []
+    g = f
+    for _ in range(3):
+        g = sole_caller(mir, g)
+        if g is None:
+            break
+        chain.append(g)
+    for g in chain:
+        gb = mir.body(g)
+        if gb is None:
+            continue
+        helpers = {f}
+        for n in mir.bodies:
+            if not n.endswith("#promoted") and "{closure" not in n and n != g and sole_caller(mir, n) in ([g] + list(helpers)):
+                helpers.add(n)
+        ib = inline_calls(gb, lambda d: d in helpers, depth=4)
+        if ib is gb:
+            continue
+        cands = [bb for bb, bl in enumerate(ib.blocks) if bl["term"] and bl["term"]["k"] == "assert" and bl["term"]["line"] == s["line"]
+                 and bl["term"]["msg"] == s["what"] and bb >= len(gb.blocks)]
+        if not cands:
+            continue
+        try:
+            an = absint.Intervals(ib, mir, assume=param_ranges(g) if param_ranges else None)
+        except Exception:
+            an = None
+        ok_all = True
+        why = []
+        for bb in cands:
+            ok = False
+            if an:
+                if bb not in an.reachable():
+                    ok = True
+                    why.append("unreachable")
+                for a in an.asserts:
+                    if a["bb"] == bb and a["ok"]:
+                        ok = True
+                        why.append("interval analysis: %s" % (a["detail"],))
+            if not ok:
+                r = discharge_assert_relational(mir, ib, bb)
+                if r:
+                    ok = True
+                    why.append(r)
+            ok_all = ok_all and ok
+        if ok_all:
+            return "decided on the body of the only caller %s with the helper inlined: %s" % (g, "; ".join(sorted(set(why)))[:300])
+    return None
+
+
 def _callsites(mir, fn):
     """(caller body, block, terminator) of every workspace call to fn"""
     sole_caller(mir, fn)          # builds the caller map
@@ -556,8 +673,12 @@ def check_paths(ctx, rep, rule, roots, stop=(), label=None, extra_discharge=None
                             break
             if why is None and s["kind"] == "panic":
                 why = discharge_unreachable_closure(ctx.mir, s, ctx)
+            if why is None and s["kind"] == "assert":
+                why = discharge_assert_relational(ctx.mir, b, s["bb"])
             if why is None and extra_discharge is not None:
                 why = extra_discharge(s)
+            if why is None and s["kind"] == "assert":
+                why = discharge_assert_in_caller(ctx.mir, s, inv.param_ranges)
         if why is not None:
             n_auto += 1
             rep.check(rule, key, True, "", "%s:%s" % (s["file"], s["line"]), nontrivial=not s["ok"],
